@@ -217,11 +217,13 @@ func (s *Stream) WriteRtpPacket(packet *rtp.Packet) error {
 	atomic.AddUint64(&s.size, uint64(packet.Size()))
 	verifhook.Point("write.checked", 0)
 
-	s.joinLock.Lock()
-	keyframe := s.cache.CachePack(packet)
-	verifhook.Point("write.cached", 0)
-	s.consumptions.SendToAll(packet, keyframe)
-	s.joinLock.Unlock()
+	func() {
+		s.joinLock.Lock()
+		defer s.joinLock.Unlock() // also when classifying a hostile packet panics
+		keyframe := s.cache.CachePack(packet)
+		verifhook.Point("write.cached", 0)
+		s.consumptions.SendToAll(packet, keyframe)
+	}()
 
 	s.rtpDemuxer.WriteRtpPacket(packet)
 	return nil
@@ -248,11 +250,13 @@ func (s *Stream) WriteFlvTag(tag *flv.Tag) error {
 	}
 
 	verifhook.Point("flvwrite.checked", 0)
-	s.flvJoinLock.Lock()
-	keyframe := s.flvCache.CachePack(tag)
-	verifhook.Point("flvwrite.cached", 0)
-	s.flvConsumptions.SendToAll(tag, keyframe)
-	s.flvJoinLock.Unlock()
+	func() {
+		s.flvJoinLock.Lock()
+		defer s.flvJoinLock.Unlock()
+		keyframe := s.flvCache.CachePack(tag)
+		verifhook.Point("flvwrite.cached", 0)
+		s.flvConsumptions.SendToAll(tag, keyframe)
+	}()
 	return nil
 }
 
